@@ -23,7 +23,7 @@ func (c *CPU) Disassemble(myPC uint16) string {
 	var output string
 
 	//opcode := c.Read(myPC)
-	opcode := c.Bus.nRead(c.RK, myPC)
+	opcode := c.Bus.nPeek(c.RK, myPC)
 	mode := c.instructions[opcode].mode
 
 	// crude and incosistent size adjust
@@ -41,25 +41,25 @@ func (c *CPU) Disassemble(myPC uint16) string {
 	var arg string
 	switch bytes {
 	case 4:
-		w0 := c.Bus.nRead(c.RK, myPC+0)
-		w1 := c.Bus.nRead(c.RK, myPC+1)
-		w2 := c.Bus.nRead(c.RK, myPC+2)
-		w3 := c.Bus.nRead(c.RK, myPC+3)
+		w0 := c.Bus.nPeek(c.RK, myPC+0)
+		w1 := c.Bus.nPeek(c.RK, myPC+1)
+		w2 := c.Bus.nPeek(c.RK, myPC+2)
+		w3 := c.Bus.nPeek(c.RK, myPC+3)
 		numeric = fmt.Sprintf("%02x %02x %02x %02x", w0, w1, w2, w3)
 		arg = c.formatInstructionMode(mode, w0, w1, w2, w3)
 	case 3:
-		w0 := c.Bus.nRead(c.RK, myPC+0)
-		w1 := c.Bus.nRead(c.RK, myPC+1)
-		w2 := c.Bus.nRead(c.RK, myPC+2)
+		w0 := c.Bus.nPeek(c.RK, myPC+0)
+		w1 := c.Bus.nPeek(c.RK, myPC+1)
+		w2 := c.Bus.nPeek(c.RK, myPC+2)
 		numeric = fmt.Sprintf("%02x %02x %02x", w0, w1, w2)
 		arg = c.formatInstructionMode(mode, w0, w1, w2, 0)
 	case 2:
-		w0 := c.Bus.nRead(c.RK, myPC+0)
-		w1 := c.Bus.nRead(c.RK, myPC+1)
+		w0 := c.Bus.nPeek(c.RK, myPC+0)
+		w1 := c.Bus.nPeek(c.RK, myPC+1)
 		numeric = fmt.Sprintf("%02x %02x", w0, w1)
 		arg = c.formatInstructionMode(mode, w0, w1, 0, 0)
 	case 1:
-		w0 := c.Bus.nRead(c.RK, myPC+0)
+		w0 := c.Bus.nPeek(c.RK, myPC+0)
 		numeric = fmt.Sprintf("%02x", w0)
 		arg = c.formatInstructionMode(mode, w0, 0, 0, 0)
 	default:
@@ -202,7 +202,7 @@ func (c *CPU) DisassembleTo(myPC uint16, w io.Writer) {
 		printCPUFlags(c.C, "c"),
 	)
 
-	opcode := c.Bus.nRead(c.RK, myPC)
+	opcode := c.Bus.nPeek(c.RK, myPC)
 	mode := c.instructions[opcode].mode
 
 	// crude and inconsistent size adjust
@@ -221,28 +221,28 @@ func (c *CPU) DisassembleTo(myPC uint16, w io.Writer) {
 
 	switch bytes {
 	case 4:
-		w0 = c.Bus.nRead(c.RK, myPC+0)
-		w1 = c.Bus.nRead(c.RK, myPC+1)
-		w2 = c.Bus.nRead(c.RK, myPC+2)
-		w3 = c.Bus.nRead(c.RK, myPC+3)
+		w0 = c.Bus.nPeek(c.RK, myPC+0)
+		w1 = c.Bus.nPeek(c.RK, myPC+1)
+		w2 = c.Bus.nPeek(c.RK, myPC+2)
+		w3 = c.Bus.nPeek(c.RK, myPC+3)
 		_, _ = fmt.Fprintf(w, " | %02x:%04x│%02x %02x %02x %02x│%3s ",
 			c.RK, myPC, w0, w1, w2, w3, name)
 		c.formatInstructionModeTo(w, mode, w0, w1, w2, w3)
 	case 3:
-		w0 = c.Bus.nRead(c.RK, myPC+0)
-		w1 = c.Bus.nRead(c.RK, myPC+1)
-		w2 = c.Bus.nRead(c.RK, myPC+2)
+		w0 = c.Bus.nPeek(c.RK, myPC+0)
+		w1 = c.Bus.nPeek(c.RK, myPC+1)
+		w2 = c.Bus.nPeek(c.RK, myPC+2)
 		_, _ = fmt.Fprintf(w, " | %02x:%04x│%02x %02x %02x   │%3s ",
 			c.RK, myPC, w0, w1, w2, name)
 		c.formatInstructionModeTo(w, mode, w0, w1, w2, 0)
 	case 2:
-		w0 = c.Bus.nRead(c.RK, myPC+0)
-		w1 = c.Bus.nRead(c.RK, myPC+1)
+		w0 = c.Bus.nPeek(c.RK, myPC+0)
+		w1 = c.Bus.nPeek(c.RK, myPC+1)
 		_, _ = fmt.Fprintf(w, " | %02x:%04x│%02x %02x      │%3s ",
 			c.RK, myPC, w0, w1, name)
 		c.formatInstructionModeTo(w, mode, w0, w1, 0, 0)
 	case 1:
-		w0 = c.Bus.nRead(c.RK, myPC+0)
+		w0 = c.Bus.nPeek(c.RK, myPC+0)
 		_, _ = fmt.Fprintf(w, " | %02x:%04x│%02x         │%3s ",
 			c.RK, myPC, w0, name)
 		c.formatInstructionModeTo(w, mode, w0, 0, 0, 0)
